@@ -1,12 +1,18 @@
 (** C17 — instance collapse transforms contents exactly and leaves the template intact.
-    Only statements here; proofs are in Rot/C17GeomProofs.v, SM/C17NameProofs.v, SM/C17RoundsProofs.v.
+    Only statements here; proofs are in Rot/C17GeomProofs.v, SM/C17NameProofs.v, SM/C17RoundsProofs.v,
+    SM/C17SubstProofs.v, SM/C17SitesProofs.v, SM/C17FrameProofs.v (the last one on top of C09's SM/StoreCopyProofs.v).
     Every [g_...] below is GENERATED from today's math.py / vmf.py / instancing.py (Gen/C17Formulas_gen.v) by
     symbolic execution of the Python method bodies; [place], [vrot], [mmul], [uvplace], [texcoord], [orth] are the
     hand-written specification (Rot/C17Base.v).  Arithmetic is over R: floating-point rounding is outside the model. *)
-From Coq Require Import Reals NArith ZArith List.
-From SV Require Import Rot.C17Base SM.C17Name SM.C17Rounds Gen.C17Formulas_gen
-                       Rot.C17GeomProofs SM.C17NameProofs SM.C17RoundsProofs.
+From Coq Require Import Reals NArith ZArith List String.
+From SV Require Import Rot.C17Base SM.C17Name SM.C17Rounds SM.C17Subst SM.C17Sites SM.Store SM.StoreProofs SM.StoreCopy
+                       SM.StoreCopyProofs SM.C17Frame
+                       Gen.C17Formulas_gen
+                       Rot.C17GeomProofs SM.C17NameProofs SM.C17RoundsProofs SM.C17SubstProofs SM.C17SitesProofs
+                       SM.C17FrameProofs.
 Import ListNotations.
+(* String is imported for the census names; [length] keeps meaning the length of a list *)
+Local Notation length := List.length (only parsing).
 
 (** Site obligations over the generated census (each is kernel-checked by vm_compute on every run). *)
 Definition fixup_style_values_ok : bool :=
@@ -19,6 +25,16 @@ Definition position_key_types_ok : bool :=
   strs_eqb g_fixup_key_position_types [[86;69;67]; [86;69;67;95;79;82;73;71;73;78]; [86;69;67;95;76;73;78;69]]%N.
 Definition template_calls_readonly : bool :=
   forallb (fun c => existsb (str_eqb c) g_template_readonly_methods) g_collapse_template_method_calls.
+
+(* "output-target", "entity-key", "nested-fixup": sinks that must go through fixup_name / fixup_key;
+   "output-params": a sink that is only substituted *)
+Definition name_site_labels : list str :=
+  [[111;117;116;112;117;116;45;116;97;114;103;101;116]; [101;110;116;105;116;121;45;107;101;121]; [110;101;115;116;101;100;45;102;105;120;117;112]]%N.
+Definition plain_site_labels : list str := [[111;117;116;112;117;116;45;112;97;114;97;109;115]]%N.
+Definition value_sites_present : bool :=
+  name_labels_present g_collapse_sites name_site_labels && labels_present g_collapse_sites plain_site_labels.
+Definition brushes_and_entities_copied : bool :=
+  forallb (fun c => existsb (String.eqb c) g_collapse_copied_classes) ["Solid"; "Entity"]%string.
 
 (** *** Positions: the originals rotated by the instance angles, then offset by its origin. *)
 Theorem c17_localise_point : forall p o m, g_vec_localise p o m = place p o m.
@@ -113,6 +129,115 @@ Theorem c17_fixup_name_separates_instances : forall c, cfg_ok c = true -> forall
   st <> SNone -> ch <> AT -> ch <> BANG ->
   fixup_name c st i1 (ch :: rest) = fixup_name c st i2 (ch :: rest) -> i1 = i2.
 Proof. exact fixup_name_separates_instances. Qed.
+
+(** *** $variables are substituted: EntityFixup.substitute as a scanner over the regular expression read from vmf.py
+    ([subst_cfg]); [None] = KeyError (missing variable without default). *)
+Theorem c17_substitute_name_free_identity : forall cfg inv tbl d t,
+  dollar_free t = true -> substitute cfg inv tbl d t = Some t.
+Proof. exact substitute_no_dollar. Qed.
+
+(** No '$' is left when every '$' of the text starts a variable reference and the values (and the default) contain
+    none; the result is then a fixed point.  Without the premise idempotence is false ("$$a"). *)
+Theorem c17_substitute_leaves_no_dollar : forall cfg inv tbl d t out,
+  values_dollar_free tbl d = true -> closed_text cfg inv tbl d t = true ->
+  substitute cfg inv tbl d t = Some out -> dollar_free out = true.
+Proof. exact substitute_leaves_no_dollar. Qed.
+
+Theorem c17_substitute_idempotent_on_closed : forall cfg inv tbl d t out,
+  values_dollar_free tbl d = true -> closed_text cfg inv tbl d t = true ->
+  substitute cfg inv tbl d t = Some out -> substitute cfg inv tbl d out = Some out.
+Proof. exact substitute_idempotent_on_closed. Qed.
+
+Theorem c17_substitute_idempotent_refuted :
+  let tbl := [([97], [120])]%N in
+  substitute ref_subst_cfg false tbl (Some []) [36; 36; 97]%N = Some [36; 120]%N /\
+  substitute ref_subst_cfg false tbl (Some []) [36; 120]%N = Some [] /\
+  values_dollar_free tbl (Some []) = true.
+Proof. exact substitute_idempotent_refuted. Qed.
+
+(** Longest match over the table: the name taken after a '$' is at least as long as every defined name that also
+    matches there, and a defined name that matches is never left to the identifier fallback. *)
+Theorem c17_substitute_longest_name_wins : forall cfg tbl s m r, sc_longest_first cfg = true ->
+  name_at cfg tbl s = Some (m, r) ->
+  forall k, In k (map fst tbl) -> match_pre (sc_ignore_case cfg) k s <> None -> (List.length k <= List.length m)%nat.
+Proof. exact name_at_longest. Qed.
+
+Theorem c17_substitute_defined_name_taken : forall cfg tbl s k,
+  In k (map fst tbl) -> match_pre (sc_ignore_case cfg) k s <> None ->
+  exists k0 m r, In k0 (map fst tbl) /\ match_pre (sc_ignore_case cfg) k0 s = Some (m, r) /\ name_at cfg tbl s = Some (m, r).
+Proof. exact name_at_defined. Qed.
+
+(** Without allow_invert the "(!)?" of the pattern changes nothing (the '!' is put back). *)
+Theorem c17_substitute_bang_transparent : forall cfg tbl d t, sc_bang_readd cfg = true ->
+  substitute cfg false tbl d t = substitute (without_bang cfg) false tbl d t.
+Proof. exact substitute_bang_transparent. Qed.
+
+(** *** Substitution comes first at every value site of collapse_one ([g_collapse_sites], generated): a site list that
+    passes [sites_ok] computes, at every site, [post] of the substituted raw text ... *)
+Theorem c17_sites_substitute_first : forall l, sites_ok l = true -> forall lbl e, In (lbl, e) l ->
+  forall S F x, seval S F e x = obind (S x) (post F e).
+Proof. exact sites_ok_all. Qed.
+
+(** ... so a '@global' / '!special' / empty name passed in through a $variable is kept, and an ordinary one gets the
+    style applied to the substituted text ... *)
+Theorem c17_variable_names_follow_style : forall c, cfg_ok c = true -> forall st inst e S x v,
+  site_ok e = true -> S x = Some v -> post (fixup_name c st inst) e = fixup_name c st inst ->
+  ((v = [] \/ exists ch rest, v = ch :: rest /\ (ch = AT \/ ch = BANG)) -> seval S (fixup_name c st inst) e x = Some v) /\
+  (forall ch rest, v = ch :: rest -> ch <> AT -> ch <> BANG ->
+     seval S (fixup_name c st inst) e x = Some (expected st inst v)).
+Proof.
+  intros c Hc st inst e S x v He Hs Hp. split.
+  - intros Hv. now apply (subst_first_keeps_global_names c Hc st inst e S x v).
+  - intros ch rest -> H1 H2. now apply (subst_first_names_substituted_text c Hc st inst e S x ch rest).
+Qed.
+
+(** ... whereas renaming before substituting (or not substituting) is a different function: `$v` with v = `@global`. *)
+Theorem c17_name_before_substitute_refuted :
+  seval w_S w_F (SName (SSubst SRaw)) [36;118]%N = Some [64;103;108;111;98;97;108]%N /\
+  seval w_S w_F (SSubst (SName SRaw)) [36;118]%N = Some [105;45;64;103;108;111;98;97;108]%N /\
+  seval w_S w_F (SName SRaw) [36;118]%N = Some [105;45;36;118]%N /\
+  site_ok (SSubst (SName SRaw)) = false /\ site_ok (SName SRaw) = false /\ site_ok (SSubst (SSubst SRaw)) = false.
+Proof. exact name_before_substitute_refuted. Qed.
+
+(** *** The template is not modified: collapse_one works on copies; for a copy built as C09's census says (all
+    mutable parts fresh), EVERY sequence of in-place stores and allocations through the copy leaves every
+    observation of the template object as it was ... *)
+Theorem c17_template_intact : forall (c : census) h h' la lc nd nd',
+  closed h -> closed h' -> extends h h' -> h la = Some nd -> h lc = None -> h' lc = Some nd' ->
+  copy_fresh_mutables c = true ->
+  fields_rel h h' (ck c) (nfields nd) (nfields nd') ->
+  forall ms h'' R, steps (h', [lc]) ms (h'', R) -> forall n, unfold n h'' (VRef la) = unfold n h' (VRef la).
+Proof. exact template_intact. Qed.
+
+(** ... and so does ANY number of collapses of the same template, in any order, interleaved with any work on the copies
+    made so far ([collapses]: a collapse adds a root that reaches only new mutable locations — the conclusion of C09's
+    [census_copy_new_mut] for a fresh census; in between, arbitrary in-place stores / allocations through the roots):
+    every observation of the template object is unchanged and the template stays separated from all copies. *)
+Theorem c17_template_intact_any_number_of_collapses : forall a h R h' R',
+  collapses h R h' R' ->
+  closed h -> alloc h a -> StoreProofs.roots_alloc h R -> sep h a R ->
+  (forall n, unfold n h' (VRef a) = unfold n h (VRef a)) /\ sep h' a R' /\ closed h' /\ alloc h' a /\ StoreProofs.roots_alloc h' R'.
+Proof. exact template_intact_any_number_of_collapses. Qed.
+
+(** the step that feeds [col_copy]: C09's census theorem for a copy built as a fresh census says *)
+Theorem c17_fresh_census_copy_is_new : forall (c : census) h h' la lc nd nd',
+  closed h -> extends h h' -> h la = Some nd -> h lc = None -> h' lc = Some nd' ->
+  copy_fresh_mutables c = true ->
+  fields_rel h h' (ck c) (nfields nd) (nfields nd') ->
+  new_mut h h' (VRef lc).
+Proof. exact StoreCopyProofs.census_copy_new_mut. Qed.
+
+(** ... and the census booleans the check evaluates give that premise for the classes collapse_one copies, and say
+    that every field Side.localise / Solid.localise modify in place was copied deeply. *)
+Theorem c17_copied_classes_fresh : forall all copied, copied_classes_fresh all copied = true ->
+  forall cls, In cls copied -> exists l, copy_closure cls = Some l /\
+  forall n, In n l -> exists c, In (n, c) all /\ copy_fresh_mutables c = true.
+Proof. exact copied_classes_fresh_sound. Qed.
+
+Theorem c17_inplace_writes_are_deep : forall all ws, writes_ok all ws = true ->
+  forall cls f, In (cls, f, WInPlace) ws ->
+  exists c k, In (cls, c) all /\ In (f, k, HDeep) c /\ field_fresh k HDeep = true.
+Proof. exact inplace_writes_are_deep. Qed.
 
 Local Open Scope nat_scope.
 (** *** collapse_all terminates: at most recur_limit rounds, then RecursionError; success iff the inclusion depth
